@@ -25,7 +25,8 @@ EXPLANATION = (
     " (R7, extended) the range test of a narrowing conversion is followed into the helper of the same file that performs the conversion."
     " (R14) a float that enters the VM from text (str::parse), from bytes or from digit-by-digit accumulation is tested with is_finite in the function that obtains it."
     " (R15) the payload of an existing INTEGER / LONG value written through a reference receives the result of a conversion function or a copy, never an operation computed on the spot."
-    " (R16 = C03.R9 / R3) the pending by-reference write-backs of a call are not mixed up with those of a call made while they are written back.")
+    " (R16 = C03.R9 / R3) the pending by-reference write-backs of a call are not mixed up with those of a call made while they are written back."
+    " (R17) every narrowing float cast (f64 as f32) outside the parser is followed on every path by an is_finite test of its result: a DOUBLE beyond the SINGLE range raises Overflow however it is written, it is never stored as infinity.")
 NOT_DECIDED = [
     "rounding direction and the exact boundary constants of each conversion (value-level)",
     "C06.R3 covers payloads computed by integer arithmetic inside the constructing function; values "
@@ -1083,6 +1084,44 @@ def r15_payload_written_in_place(ctx, rule="C06.R15"):
     ctx.require(rule, 1)
 
 
+def r17_narrowing_to_single_is_checked(ctx, rule="C06.R17"):
+    """`S! = <DOUBLE value>` raises Overflow (6) when the value is beyond the SINGLE range, however the value is
+    written.  `f64 as f32` turns such a value into infinity without a word, so every narrowing float cast of the
+    linter, the generator, the VM and the value crates has to be followed - in the same function, on every path from
+    the cast - by an `is_finite` test of its result (the checked conversion QBNumberCast<f32> for f64 is the one
+    instance today).  The parser's casts are C10.R7's business."""
+    prog = ctx.prog
+    n = 0
+    for fn in sorted(prog.fns.values(), key=lambda f: f.id):
+        if fn.body is None or fn.kind == "const" or fn.crate in ("rusty_parser", "rusty_pc"):
+            continue
+        body = fn.body
+        for b, blk in enumerate(body.blocks):
+            if body.is_cleanup(b):
+                continue
+            for st in blk["s"]:
+                r = st.get("r", {})
+                if not (st["k"] == "assign" and r.get("k") == "cast" and r.get("ck") == "FloatToFloat"
+                        and body.locals[st["p"][0]]["ty"] == "f32"):
+                    continue
+                n += 1
+                tests = [b2 for b2, t in body.calls() if mir.callee_path(t).endswith("f32::is_finite")
+                         or (t.get("callee") or "").endswith("::is_finite")]
+                exits = [e for e in body.exits() if not body.is_cleanup(e)]
+                ok = bool(tests) and all(body.every_path_passes(b, {e}, set(tests)) for e in exits if e in body.reachable(b))
+                owner = prog.enclosing_fn(fn) or fn
+                short = owner.path.split("::", 1)[1]
+                ctx.decide(ok, rule, "%s:%s:f64-as-f32" % (rule, short), "%s:%s" % (fn.file, st.get("ln")),
+                           "the narrowed value is tested with is_finite on every path",
+                           "%s narrows a DOUBLE to a SINGLE with `as f32` and does not test the result with is_finite: a value "
+                           "beyond the SINGLE range is stored as infinity instead of raising Overflow (`S! = 1E+300#` style "
+                           "literals, constants, arguments)" % short)
+    if not n:
+        raise CheckError("%s: no f64 -> f32 narrowing found at all (the checked conversion has gone or the detector is blind)" % rule)
+    ctx.analysed_units(rule, narrowing_casts=n)
+    ctx.require(rule, 1)
+
+
 def run(ctx):
     common.install(ctx)
     T = ot.OpTables(ctx.prog)
@@ -1108,3 +1147,4 @@ def run(ctx):
     from . import c03
     c03.r9_queue_not_reentered(ctx, "C06.R16")
     c03.r3_fifo(ctx, "C06.R16")
+    r17_narrowing_to_single_is_checked(ctx)
